@@ -676,6 +676,40 @@ def usable_after_rpc_refusal(case):
     return []
 
 
+def entry_contract_client(case):
+    """C13 (real client): a second entry call of ONE client on a key it already holds (pending or subscribed) yields the datatype it
+    holds, or nil with the refusal delivered to that call's error handler (another type: always refused) — never a second, unwired
+    object; operations through the returned handle reach the server; one datatype per key; subscribed reported exactly once."""
+    for idx, (ln, mo) in enumerate(case):
+        if ln.get("k") != "rtcase" or ln.get("profile") != "rtentry":
+            continue
+        io = ln.get("obs", {})
+        bad = None
+        if io.get("setup"):
+            bad = "realtime-setup-failed"
+        elif io.get("panic") or io.get("hang"):
+            bad = "client-run-crashed"
+        elif io.get("syncProblem"):
+            bad = "sync-failed-after-entry-calls"
+        elif io.get("second") == "other":
+            bad = "second-entry-call-returned-an-unwired-twin"
+        elif ln.get("typ1") != ln.get("typ2") and not (io.get("second") == "nil" and io.get("errs2") == 1):
+            bad = "type-conflict-not-refused-through-the-error-handler"
+        elif io.get("second") == "nil" and not io.get("errs2"):
+            bad = "entry-call-refused-silently"
+        elif io.get("second") == "same" and (io.get("pending2") != 0 or io.get("stored") != 2):
+            bad = "operation-through-returned-handle-not-pushed"
+        elif io.get("second") == "nil" and io.get("stored") != 1:
+            bad = "refused-entry-call-changed-the-store"
+        elif io.get("datatypes") != 1:
+            bad = "not-exactly-one-datatype-for-the-key"
+        elif io.get("state1") != "SUBSCRIBED" or io.get("subscribedReports") != 1:
+            bad = "subscribed-not-reported-exactly-once"
+        if bad:
+            return [dict(step=idx, what=bad, detail=dict(cmd=strip(ln), obs={k: v for k, v in io.items() if k != "store"}))]
+    return []
+
+
 def isolation(case):
     """C17: a request by a client of collection A leaves every document of the other collections
     unchanged; a foreign request is refused."""
@@ -1002,6 +1036,6 @@ def hash_unique(case):
     return []
 
 
-ORACLES = dict(rt_converge=rt_converge, usable_after_rpc_refusal=usable_after_rpc_refusal, usable_after_refusal=usable_after_refusal, hash_unique=hash_unique, snapshot_replay=snapshot_replay, goroutines_serial=goroutines_serial, fault_recovers=fault_recovers, enc_roundtrip=enc_roundtrip, patch_target=patch_target, loginv=loginv, sconverge=sconverge, refused_noop=refused_noop,
+ORACLES = dict(rt_converge=rt_converge, entry_contract_client=entry_contract_client, usable_after_rpc_refusal=usable_after_rpc_refusal, usable_after_refusal=usable_after_refusal, hash_unique=hash_unique, snapshot_replay=snapshot_replay, goroutines_serial=goroutines_serial, fault_recovers=fault_recovers, enc_roundtrip=enc_roundtrip, patch_target=patch_target, loginv=loginv, sconverge=sconverge, refused_noop=refused_noop,
                isolation=isolation, notify=notify, contract=contract, corr=corr, spec=spec, converge=converge, err_noop=err_noop, no_panic=no_panic,
                seq_gapless=seq_gapless, list_order=list_order, twin=twin, tx_atomic=tx_atomic, plain_doc=plain_doc, lock_excludes=lock_excludes, doc_refs_unique=doc_refs_unique)
